@@ -162,7 +162,73 @@ def gen_vte():
     return "GenVte.v", text, {"states": 16}
 
 
-GENERATORS = {"proc": gen_proc, "vte": gen_vte}
+# --------------------------------------------------------------------------- D-features / T-flag-order (C13)
+def dump_features():
+    """{feature: {option: (kind, text)}} from the hook-enabled binary, features sorted"""
+    import subprocess
+    delta = os.path.join(os.environ.get("VERIF_CACHE", "/verif/.cache"), "target", "debug", "delta")
+    env = {"PATH": "/usr/bin:/bin", "HOME": "/nonexistent", "DELTA_VERIF": "dump:features", "GIT_CONFIG_NOSYSTEM": "1"}
+    p = subprocess.run([delta], env=env, stdout=subprocess.PIPE, stderr=subprocess.PIPE, timeout=60)
+    if p.returncode != 0:
+        raise PatternError("dump:features failed: " + p.stderr.decode()[-300:])
+    feats = {}
+    for line in p.stdout.decode().split("\n"):
+        f = line.split("\t")
+        if len(f) != 4:
+            continue
+        feats.setdefault(f[0], {})
+        if f[1] != "-":
+            feats[f[0]][f[1]] = (f[2], bytes.fromhex(f[3]).decode())
+    return feats
+
+
+def flag_order():
+    """order in which gather_features examines the command-line feature flags"""
+    src = rustsrc.load(os.path.join(REPO, "src/options/set.rs"))
+    body = rustsrc.fn_body(src, r"fn gather_features\(")
+    order = re.findall(r'if opt\.(\w+) \{ gather_builtin_features_recursively\("([\w-]+)"', norm(body))
+    if not order:
+        raise PatternError("gather_features: no `if opt.<flag> { gather_builtin_features_recursively(...)` lines found")
+    for field, name in order:
+        if field.replace("_", "-") != name:
+            raise PatternError(f"gather_features: flag opt.{field} gathers feature {name}")
+    return [name for _, name in order]
+
+
+def gen_features():
+    feats = dump_features()
+    names = sorted(feats)
+    order = flag_order()
+    if sorted(order) != names:
+        raise PatternError(f"command-line flags {order} do not cover the built-in features {names}")
+    # after the repair of F11 the flags of a section are examined in sorted order: check the source
+    src = rustsrc.load(os.path.join(REPO, "src/options/set.rs"))
+    fbody = norm(rustsrc.fn_body(src, r"fn gather_builtin_features_from_flags_in_gitconfig\("))
+    sorted_iter = bool(re.search(r"let mut child_features: Vec<&String> = builtin_features\.keys\(\)\.collect\(\); child_features\.sort\(\); for child_feature in child_features", fbody))
+    idx = {n: i for i, n in enumerate(names)}
+
+    def children(n):
+        v = feats[n].get("features")
+        return [idx[c] for c in v[1].split()] if v else []
+
+    def flags(n):
+        return [idx[o] for o, (k, t) in feats[n].items() if k == "bool" and t == "true" and o in idx and o != n]
+    lst = lambda l: "[" + "; ".join(str(x) for x in l) + "]"
+    text = ("(* GENERATED by tools/translate.py: the built-in features of the hook-enabled binary\n"
+            "   (DELTA_VERIF=dump:features) in sorted order, the features each one enables through its\n"
+            "   `features` default and through boolean flags, and the order in which gather_features\n"
+            "   examines the command-line flags (source scan of src/options/set.rs).\n"
+            "   Feature numbers: " + ", ".join(f"{i}={n}" for n, i in idx.items()) + " *)\n"
+            "From Coq Require Import List NArith Bool.\nImport ListNotations.\nLocal Open Scope N_scope.\n\n"
+            f"Definition builtin_names : list N := {lst(range(len(names)))}.\n"
+            "Definition builtin_children : list (N * list N) := [" + "; ".join(f"({idx[n]}, {lst(children(n))})" for n in names) + "].\n"
+            "Definition builtin_flags : list (N * list N) := [" + "; ".join(f"({idx[n]}, {lst(flags(n))})" for n in names) + "].\n"
+            f"Definition cli_flag_order : list N := {lst([idx[n] for n in order])}.\n"
+            f"Definition flags_examined_in_sorted_order : bool := {coq_bool(sorted_iter)}.\n")
+    return "GenFeatures.v", text, {"names": names, "flag_order": order, "sorted_iteration": sorted_iter}
+
+
+GENERATORS = {"proc": gen_proc, "vte": gen_vte, "features": gen_features}
 
 
 def run(which=None):
